@@ -95,7 +95,9 @@ class BiLinearForm(_Form):
                 values_e = (values_e_pg * dX_e_pg).integrate()
 
                 # add data (`u * v` on a scalar field carries a trailing axis of size 1)
-                data[:, i, j] = np.reshape(values_e, groupElem.Ne)
+                # K_ji = a(u_i, v_j): rows follow the test function v, columns the trial function u,
+                # so that K @ U is the form evaluated at u = sum_i U_i N_i (matters for non-symmetric forms)
+                data[:, j, i] = np.reshape(values_e, groupElem.Ne)
 
         return data
 
